@@ -18,7 +18,7 @@
 From Coq Require Import List ZArith Bool Relations.
 Import ListNotations.
 Require Import Gram.Model.Term Gram.Model.DeBruijn Gram.Model.Eval Gram.Spec.Typing Gram.Oracle.Infer Gram.Proofs.InferSound Gram.Proofs.ConvProofs.
-Require Import Gram.Model.ModelB Gram.Proofs.StoreProofs Gram.Proofs.StoreTc Gram.Proofs.AcyclicProofs Gram.Proofs.AcyclicTc.
+Require Import Gram.Model.ModelB Gram.Proofs.StoreProofs Gram.Proofs.StoreTc Gram.Proofs.AcyclicProofs Gram.Proofs.AcyclicTc Gram.Proofs.ScopedProofs Gram.Proofs.ScopeStore.
 
 Theorem C12_validator_sound : forall fuel G a b, convb fuel G a b = Some true -> conv G a b.
 Proof. exact convb_sound. Qed.
@@ -87,3 +87,41 @@ Example C12_acyclic_example :
   unifyB 12 [None; None] [] (TBin OSum (THole 1 0) (THole 0 0)) (TBin OSum (THole 0 0) (TNeg (THole 1 0)))
   = Some (false, [None; Some (THole 0 0)]).
 Proof. vm_compute. reflexivity. Qed.
+
+(* Scope of solutions (Proofs/ScopeStore.v). With a home depth for every cell (`H`), `wsc H lim n t` says: variables in
+   range, every hole occurrence stands at its cell's home plus its shift, and NO hole is local to the term that
+   mentions it; `store_ok H s`: every recorded solution is well scoped at the home of its cell. Unification
+   preserves this, success or failure: the lowering guard of the hole arms is what makes it true. *)
+Theorem C12_solutions_well_scoped : forall f s H D a b ok s',
+  store_ok H s -> dctx_ok H D -> wsc H (length D) (length D) a -> wsc H (length D) (length D) b ->
+  unifyB f s D a b = Some (ok, s') ->
+  exists H', hext H H' /\ store_ok H' s'.
+Proof. exact unifyB_solutions_scoped. Qed.
+Check C12_solutions_well_scoped : forall f s H D a b ok s',
+  store_ok H s -> dctx_ok H D -> wsc H (length D) (length D) a -> wsc H (length D) (length D) b ->
+  unifyB f s D a b = Some (ok, s') ->
+  exists H', hext H H' /\ store_ok H' s'.
+Print Assumptions C12_solutions_well_scoped.
+
+Theorem C12_solutions_read_back_well_scoped : forall f s H D a b ok s',
+  store_ok H s -> dctx_ok H D -> wsc H (length D) (length D) a -> wsc H (length D) (length D) b ->
+  unifyB f s D a b = Some (ok, s') ->
+  exists H', hext H H' /\ forall id sol, sget s' id = Some sol ->
+    exists h, nth_error H' id = Some h /\ forall g, wsc H' h h (zonkB g s' sol) /\
+      (hole_free (zonkB g s' sol) = true -> scoped (zonkB g s' sol) h = true).
+Proof. exact unifyB_solutions_zonk_scoped. Qed.
+Check C12_solutions_read_back_well_scoped : forall f s H D a b ok s',
+  store_ok H s -> dctx_ok H D -> wsc H (length D) (length D) a -> wsc H (length D) (length D) b ->
+  unifyB f s D a b = Some (ok, s') ->
+  exists H', hext H H' /\ forall id sol, sget s' id = Some sol ->
+    exists h, nth_error H' id = Some h /\ forall g, wsc H' h h (zonkB g s' sol) /\
+      (hole_free (zonkB g s' sol) = true -> scoped (zonkB g s' sol) h = true).
+Print Assumptions C12_solutions_read_back_well_scoped.
+
+(* ... and the side condition is necessary: recorded finding D19 inside Coq. Two unifications on inputs whose
+   variables and hole shifts are all in range leave a cell written at depth 0 that reads back as a term with a
+   free variable - the first solution has a hole LOCAL to it, and raising it leaves that hole's shift alone. *)
+Theorem C12_scoping_refuted_D19 : ltac:(let T := type of CE.unify_local_hole_breaks_scoping in exact T).
+Proof. exact CE.unify_local_hole_breaks_scoping. Qed.
+Check C12_scoping_refuted_D19 : _ /\ _ /\ _ /\ _ /\ _ /\ _ /\ _ /\ scoped (zonkB 5 CE.sA2 (THole 0 0)) 0 = false.
+Print Assumptions C12_scoping_refuted_D19.
